@@ -1,6 +1,6 @@
 """C19 — one live instance per database directory."""
 from ..registry import rule
-from ..core import origin_of_operand, AnchorMissing, const_eval, feasible_reach
+from ..core import strip_generics, origin_of_operand, AnchorMissing, const_eval, feasible_reach
 from .common import *
 from .walrules import FS_MUTATORS
 
@@ -128,7 +128,16 @@ def r3(cx):
             bad = [c for c in b2.calls if c.bb in b2.live and f.call_may_reach(c, {"std::fs::remove_file", "std::fs::rename", "std::fs::remove_dir_all"})]
             cx.check(not bad, "`%s` never unlinks or renames the LOCK file" % b2.id, "lock-unlinked|%s" % b2.id, bad[0].where() if bad else b2.where(),
                      "`%s` removes/renames the LOCK file: an opener that already opened the old inode and one that creates a fresh file both obtain the lock" % b2.id)
-    who_calls(cx, ["LockFile::release"], {"Core::close", "<LockFile as Drop>::drop", "lockfile::LockFile::drop"}, "LockFile::release callers", "who:release", minimum=2)
+    allowed = {"Core::close", "<LockFile as Drop>::drop", "lockfile::LockFile::drop"}
+    # a release-on-failed-open guard: the Drop impl of a type that is only ever constructed in Core::new (C19.R6 checks that
+    # it is disarmed on the success path)
+    for gb in f.scan_bodies():
+        if gb.name == "drop" and gb.impl_trait and gb.impl_trait.endswith("Drop") and gb.calls_to("LockFile::release") and "LockFile" not in (gb.self_ty or ""):
+            ty = gb.self_ty
+            ctor = {f.fn_of(x).id for x in f.scan_bodies() for i, j, lhs, rv, line in x.assigns() if rv[0] == "agg" and rv[3] and rv[3].get("adt") == ty}
+            if ctor and ctor <= {"lsm::Core::new"}:
+                allowed |= set(f.aliases_of(f.canon[gb.id]))
+    who_calls(cx, ["LockFile::release"], allowed, "LockFile::release callers", "who:release", minimum=2)
 
 
 SUBDIR = {"sstable_dir", "wal_dir", "manifest_dir", "vlog_dir", "versioned_index_dir", "sstable_file_path", "vlog_file_path", "manifest_file_path", "join"}
@@ -161,3 +170,104 @@ def r4(cx):
                      "`%s` calls %s on a path taken directly from the database root (no sub-directory in between): the LOCK file lives there; unlinking or replacing it while the "
                      "store is open lets a second instance open the same directory" % (owner, c.primary))
     cx.floor("file-system mutation sites outside lockfile.rs", n, 15)
+
+
+@rule("C19", "C19.R5", "a cloneable store handle closes the store only when the last handle goes away")
+def r5(cx):
+    """`Tree` is `Clone` (handles share one `Arc<Core>`), and dropping a `Tree` closes the core, which releases the
+    directory lock.  If every drop does that, dropping one clone unlocks the directory under the handles that are still
+    alive, and a second instance can open it.  Decided: when the handle type implements Clone, the part of its Drop that
+    reaches Core::close is control dependent on a test of a handle count (atomic fetch_sub / Arc::strong_count)."""
+    from ..core import comparisons
+    f = cx.f
+    cl = [b for b in f.scan_bodies() if b.name == "clone" and b.impl_trait and b.impl_trait.endswith("Clone") and (b.self_ty or "").endswith("lsm::Tree")]
+    dr = [b for b in f.scan_bodies() if b.name == "drop" and b.impl_trait and b.impl_trait.endswith("Drop") and (b.self_ty or "").endswith("lsm::Tree")]
+    if len(dr) != 1:
+        raise AnchorMissing("expected one Drop impl for lsm::Tree, found %d" % len(dr))
+    b = dr[0]
+    closes = []
+    for c in b.calls:
+        if c.bb in b.live and f.call_may_reach(c, {"Core::close"}):
+            closes.append(c)
+    for i, j, lhs, rv, line in b.assigns():
+        if i in b.live and rv[0] == "agg" and rv[1] in ("closure", "coroutine", "coroutine_closure") and rv[3]:
+            cb = f.bodies.get(rv[3]["def"])
+            if cb is not None and (f.may_reach(cb.id, "Core::close") or any(f.may_reach(x.id, "Core::close") for x in f.closures_of(cb))):
+                closes.append(type("S", (), {"bb": i, "where": (lambda self_=None, b=b, line=line: "%s:%d" % (b.file, line)), "primary": "spawned close task"})())
+    cx.check(bool(closes), "dropping a Tree closes the store", "drop-never-closes", b.where(), "Drop for Tree no longer reaches Core::close")
+    if not cl:
+        cx.ok("lsm::Tree is not Clone: every drop is the last handle", b.where())
+        return
+    guards = []
+    for cm in comparisons(b):
+        o = origin_of_operand(b, cm.lhs)
+        o2 = origin_of_operand(b, cm.rhs)
+        if any(x.primary.split("::")[-1] in ("fetch_sub", "strong_count", "fetch_add") for x in o.calls + o2.calls):
+            guards.append(cm)
+    for s_ in closes:
+        ok = any(g.condition_to_reach(s_.bb) is not None for g in guards)
+        cx.check(ok, "the close in Drop for Tree is guarded by a last-handle test", "clone-drop-closes-store", s_.where(),
+                 "`Tree` is Clone, and dropping any clone closes the shared core and releases the directory lock while other handles are alive: a second instance "
+                 "can then open the same directory next to the surviving handle")
+    # and Clone registers the new handle with the same counter
+    if guards:
+        for c in cl:
+            cx.check(bool([x for x in c.calls if x.bb in c.live and x.primary.split("::")[-1] in ("fetch_add", "clone")]), "Clone for Tree registers the new handle", "clone-unregistered", c.where())
+
+
+def _own_drop_releases(f, ty, dropimpls):
+    """the Drop impl of the dropped value's OWN type (not one nested behind Arc/Rc, whose destructor only runs for the last
+    reference) reaches LockFile::release"""
+    base = ty.split("<")[0]
+    for d in dropimpls:
+        dc = strip_generics(d)
+        if dc.startswith("<%s as " % base) or dc.startswith("<%s<" % base):
+            cid = f.canon_to_id.get(dc)
+            if cid and (f.may_reach(cid, "LockFile::release") or any(c.names & {"LockFile::release"} for c in f.bodies[cid].calls)):
+                return True
+    return False
+
+
+@rule("C19", "C19.R6", "an open that fails after taking the directory lock gives the lock back")
+def r6(cx):
+    """Core::new takes the lock inside CoreInner::new and then spawns background tasks that hold Arc<CoreInner>; if a later
+    step fails (corrupt WAL in absolute-consistency mode, manifest error, orphan clean-up error) the Arc is kept alive by
+    the parked tasks and the LockFile is never dropped: no store is open, yet the directory stays locked for the life of
+    the process.  Decided: every error exit of Core::new that lies after the successful CoreInner::new passes an explicit
+    release -- a call that reaches LockFile::release, or the drop of a guard value whose own Drop impl does."""
+    f = cx.f
+    b = f.body("Core::new")
+    acq = sites(cx, b, "CoreInner::new")
+    cx.check(f.may_reach(f.body("CoreInner::new").id, "LockFile::acquire"), "CoreInner::new takes the directory lock", "open-no-lock", acq[0].where())
+    re_ = result_edges(b, acq[0])
+    if not re_:
+        raise AnchorMissing("Core::new: result of CoreInner::new is not branched on")
+    okb, errb = re_
+    # (may-reach would count every callee that merely drops an Arc<CoreInner>: destructor edges; an explicit release is a
+    #  call that certainly releases)
+    rel = {c.bb for c in b.calls if c.bb in b.live and (c.names & {"LockFile::release"} or f.call_must_reach(c, {"LockFile::release"})) and not c.names & {"CoreInner::new"}}
+    guards = []
+    for bb_, pl, ty, di in b.drops:
+        if bb_ in b.live and not ty.startswith("std::sync::Arc<") and not ty.startswith("std::rc::Rc<") and "ControlFlow" not in ty and _own_drop_releases(f, ty, di):
+            rel.add(bb_)
+            guards.append((bb_, pl, ty))
+    errs = [x for x, k in exits(b) if k == "err"]
+    r = b.reachable_from(okb, avoid=rel)
+    # (`?` writes Err into the return place first and runs the scope's drops afterwards: the release may lie between the
+    #  block that builds the error and the actual return)
+    bad = sorted(x for x in errs if x in r and x not in rel and any(t in b.reachable_from([x], avoid=rel) for t in b.rets))
+    cx.check(not bad, "every failing exit of Core::new after the lock was taken releases it (%d release points)" % len(rel), "failed-open-keeps-lock", b.where(bad[0]) if bad else b.where(),
+             "Core::new can return Err after CoreInner::new took the directory lock without releasing it; the background tasks spawned during open keep Arc<CoreInner> "
+             "alive, so the LockFile is never dropped: the directory cannot be opened again in this process although no store is open on it")
+    # a release-on-failure guard must be disarmed on the success path
+    oks = [x for x, k in exits(b) if k in ("ok", "tail")]
+    for bb_, pl, ty in guards:
+        dis = []
+        for i, j, lhs, rv, line in b.assigns():
+            if i in b.live and lhs[0] == pl[0] and len(lhs) > 1:
+                if rv[0] == "agg" and rv[3] and rv[3].get("variant") == "None":
+                    dis.append(i)
+                elif rv[0] == "use" and any(a.get("variant") == "None" for a in origin_of_operand(b, rv[1]).aggs):
+                    dis.append(i)
+        cx.check(bool(dis) and all(b.set_dominates(dis, x) for x in oks), "the release-on-failure guard (%s) is disarmed before Core::new returns Ok" % ty.split("::")[-1], "open-guard-not-disarmed", b.where(bb_),
+                 "the guard that releases the lock on a failed open is still armed when Core::new succeeds: a successful open would unlock the directory")
